@@ -30,7 +30,22 @@ pub fn run(ctx: &mut Ctx) {
     let mut attempts = 0;
     while n_done < ctx.n && attempts < ctx.n * 3 {
         attempts += 1;
-        let (src, tags) = gen_program(&mut ctx.rng, &cfg);
+        let (mut src, tags) = gen_program(&mut ctx.rng, &cfg);
+        // some sources begin with meta blocks: they run while the source is compiled, with recording already on, and
+        // their results are re-emitted as literals — none of which may leave anything for reverse stepping to undo
+        // (repair 0bda475). The machine-level model starts from an empty log, so these go to the oracle only.
+        let meta_prefix = ctx.rng.chance(12);
+        if meta_prefix {
+            let (a, b) = (ctx.rng.range(-9, 99), ctx.rng.range(0, 9));
+            let pre = match ctx.rng.below(4) {
+                0 => format!("#( {} {} + #)", a, b),
+                1 => format!("#( {} {} #) drop", a, b),
+                2 => format!("#( {} #( {} 1 + #) * #)", a, b),
+                _ => format!("#( [ {} {} ] #) drop #( {} const kk{} #)", a, b, b, b),
+            };
+            src = format!("{} {}", pre, src);
+            ctx.tag("kind:meta-prefix");
+        }
         let mut xs = match prepare(&base, &src, true) {
             Some(xs) => xs,
             None => { ctx.tag("skipped:build-error"); continue; }
@@ -103,6 +118,6 @@ pub fn run(ctx: &mut Ctx) {
             }
         }
         ctx.tag(&format!("steps:{}", (hist.len() - 1) / 10 * 10));
-        ctx.case(format!("C02 vm {} view=full script={}", setup, script.join(",")), answers.join(" ; "));
+        if !meta_prefix { ctx.case(format!("C02 vm {} view=full script={}", setup, script.join(",")), answers.join(" ; ")); }
     }
 }
